@@ -26,7 +26,7 @@ import (
 const depth = 4
 
 var kinds = []string{"create-then-rename", "create-then-modify", "create-then-delete", "list", "info", "set-comment", "rename", "delete", "move", "move-dest", "new-folder", "alias", "alias-dest", "download", "download-folder",
-	"upload", "upload-folder-target", "upload-folder-items", "new-user", "update-create", "update-rename", "update-delete", "set-user", "delete-user", "alias-then-move"}
+	"upload", "upload-folder-target", "upload-folder-items", "new-user", "update-create", "update-rename", "update-delete", "set-user", "delete-user", "alias-then-move", "upload-folder-onto-root"}
 
 // auditMark, when set (path-audit child), is called right before the hostile request is sent and right after the
 // server is quiescent again, so that a system-call tracer can attribute file accesses to the request.
@@ -37,7 +37,7 @@ var simple *core.Simple
 func init() {
 	simple = &core.Simple{
 		Id: "C07", Lvl: "exploration", Quick: 2100, Thorough: 80000, PerBatch: 350, Width: 175, Timeout: 2400,
-		RuleText: "each case builds a sandbox S/l1/l2/l3/l4/root with uniquely named canary files and directories at every level (including .info_root, .rsrc_root and root.incomplete next to the root, and canaries next to the accounts directory), then — as a client of the server-wide root or, in a third of the cases, of an account with its own file root next to it — sends one file-touching or account request (25 kinds incl. an alias that is made in a sub-folder and then moved up, two-step account sequences on a hostile existing login, the actual transfer for downloads/uploads and folder-upload item headers on the transfer connection) whose name / path items / new name / destination / item header / login carries a hostile component ('..', '.', '/', empty, absolute, a/../../b, NUL, 255-byte and longer, high bytes, more '..' than the sandbox is deep, count/length prefixes that disagree with the data, names aiming at a canary); oracle: the recursive snapshot (names, types, sizes, hashes, link targets) of everything outside the root (outside Users/ for account requests) is unchanged, no link inside the root points outside, and no canary token appears in any reply or transfer byte. distinct = (request kind, hostile class, placement); non-trivial = every case",
+		RuleText: "each case builds a sandbox S/l1/l2/l3/l4/root with uniquely named canary files and directories at every level (including .info_root, .rsrc_root and root.incomplete next to the root, and canaries next to the accounts directory), then — as a client of the server-wide root or, in a third of the cases, of an account with its own file root next to it — sends one file-touching or account request (26 kinds incl. an alias that is made in a sub-folder and then moved up, a folder upload aimed at the root itself while an entry called '.incomplete' lies in it, two-step account sequences on a hostile existing login, the actual transfer for downloads/uploads and folder-upload item headers on the transfer connection) whose name / path items / new name / destination / item header / login carries a hostile component ('..', '.', '/', empty, absolute, a/../../b, NUL, 255-byte and longer, high bytes, more '..' than the sandbox is deep, count/length prefixes that disagree with the data, names aiming at a canary); oracle: the recursive snapshot (names, types, sizes, hashes, link targets) of everything outside the root (outside Users/ for account requests) is unchanged, no link inside the root points outside, and no canary token appears in any reply or transfer byte. distinct = (request kind, hostile class, placement); non-trivial = every case",
 		Case:     runCase,
 		Extra: func(tier string, seed int64) []core.Batch {
 			n := 170
@@ -389,6 +389,38 @@ func runCase(c *core.Case) {
 		call(208, rc.FS(201, "escaped-target"), rc.F(202, rc.PathS("dir", "sub")), rc.F(212, rc.Path()))
 		call(200, rc.F(202, rc.PathS("escaped-target")))
 		call(206, rc.FS(201, "x.txt"), rc.F(202, rc.PathS("escaped-target")))
+	case "upload-folder-onto-root":
+		// no hostile bytes in the request: an earlier request left an entry called ".incomplete" (a legal name) in the
+		// root, and a folder upload is aimed at the root itself (spelled as clients may spell it) with an item whose
+		// header carries no path item or only '..' items. The item's partial and final names are then derived from the
+		// root's own name: nothing may appear next to the root.
+		placement = "item-header"
+		if r.Bool() {
+			call(205, rc.FS(201, ".incomplete"))
+		} else {
+			os.WriteFile(filepath.Join(zoneRoot, ".incomplete"), []byte("partial"), 0644)
+		}
+		before = fixture.Snapshot(srv.Dir)
+		spell := core.Pick(r, []string{"", "", ".", "..", "/", "absent"})
+		fs := []rc.Field{rc.F(108, rc.U32(50)), rc.F(220, rc.U16(1))}
+		if spell != "absent" {
+			fs = append(fs, rc.FS(201, spell))
+		}
+		if r.Bool() {
+			fs = append(fs, rc.F(202, rc.Path()))
+		}
+		var path [][]byte
+		for i := r.Intn(3); i > 0; i-- {
+			path = append(path, []byte(".."))
+		}
+		desc = fmt.Sprintf("folder upload onto the root (name %q) holding an entry '.incomplete', item header with %d '..' path items", spell, len(path))
+		h.class = fmt.Sprintf("root-%s/dotdot%d", spell, len(path))
+		rep, ok := call(213, fs...)
+		if ref, has := rep.Get(107); ok && rep.Err == 0 && has {
+			_, t, _ := xfer.FolderUpload(srv, "10.7.0.1:2", ref, []xfer.UpItem{{Path: path, Data: []byte("FOLDER-ITEM-ESCAPE-ROOT")}})
+			t.Conn.CloseWrite()
+			t.WaitDone(xfer.TransferWatchdog)
+		}
 	case "new-user":
 		accountZone, placement = true, "login"
 		call(350, rc.F(105, rc.Obfuscate(h.b)), rc.FS(102, "X"), rc.F(106, rc.Obfuscate([]byte("p"))), rc.F(110, make([]byte, 8)))
